@@ -115,8 +115,8 @@ func (o *Obligation) relevantHyps() []Term {
 					break
 				}
 			}
-			if len(infos[i].syms) == 0 {
-				hit = true // closed facts (cheap)
+			if len(infos[i].syms) == 0 || len(o.Hyps[i].S) <= 64 {
+				hit = true // closed facts and short ground facts (cheap; often about hub symbols such as the receiver)
 			}
 			if hit {
 				infos[i].used = true
